@@ -61,6 +61,8 @@ type fault struct {
 	Idx     int
 	Kind    int
 	RepFail bool
+	Alloc   bool // the AllocID of switch attempt AIdx fails (never together with Save: see notes)
+	AIdx    int
 }
 type op struct {
 	K      string // tick config layout report store
@@ -119,7 +121,11 @@ func (f fault) coq() string {
 	if f.Save {
 		sv = fmt.Sprintf("(Some (%d%%nat, %s))", f.Idx, []string{"FBefore", "FAfter"}[f.Kind])
 	}
-	return fmt.Sprintf("(Fault %s %s)", sv, coqfmt.Bool(f.RepFail))
+	al := "None"
+	if f.Alloc {
+		al = fmt.Sprintf("(Some %d%%nat)", f.AIdx)
+	}
+	return fmt.Sprintf("(Fault %s %s %s)", sv, coqfmt.Bool(f.RepFail), al)
 }
 func (o op) coq() string {
 	switch o.K {
@@ -182,9 +188,28 @@ func stateRaw(s string) string {
 	return map[string]string{"Sync": "sync", "Async": "async", "SyncRecover": "sync_recover"}[s]
 }
 
+// failCluster is the mock cluster with an AllocID that can be made to fail (the n-th call since arm)
+type failCluster struct {
+	*mockcluster.Cluster
+	failAt int // -1: never
+	calls  int
+}
+
+var errAlloc = errors.New("verif: injected id-allocation fault")
+
+func (c *failCluster) AllocID() (uint64, error) {
+	n := c.calls
+	c.calls++
+	if n == c.failAt {
+		return 0, errAlloc
+	}
+	return c.Cluster.AllocID()
+}
+
 // ---------- world: fresh per case ----------
 type world struct {
 	tc    *mockcluster.Cluster
+	fc    *failCluster
 	st    *core.Storage
 	kb    *kvx14.Base
 	rec   *recorder
@@ -282,7 +307,8 @@ func newWorld(b boot) *world {
 	*bs = b.Batch
 	*ms = 2
 	w.kb.Arm(nil)
-	m, err := replication.NewReplicationModeManager(b.C.real(), w.st, w.tc, w.rec)
+	w.fc = &failCluster{Cluster: w.tc, failAt: -1}
+	m, err := replication.NewReplicationModeManager(b.C.real(), w.st, w.fc, w.rec)
 	if err != nil {
 		panic(err)
 	}
@@ -330,6 +356,10 @@ func (w *world) arm(f fault) {
 	}
 	w.kb.Arm(plan)
 	w.rec.fail = f.RepFail
+	w.fc.calls, w.fc.failAt = 0, -1
+	if f.Alloc {
+		w.fc.failAt = f.AIdx
+	}
 }
 
 func (w *world) exec(o op, label *string) string {
@@ -361,6 +391,7 @@ func (w *world) exec(o op, label *string) string {
 	}
 	w.kb.Arm(nil)
 	w.rec.fail = false
+	w.fc.failAt = -1
 	return w.snapshot(r)
 }
 
@@ -424,6 +455,9 @@ func gen(r *rng.R, sh *shadow, nextRID *uint64, malformed bool) op {
 	}
 	if r.Pct(8) {
 		ft.RepFail = true
+	}
+	if !ft.Save && r.Pct(7) {
+		ft.Alloc, ft.AIdx = true, r.Pick(80, 20)
 	}
 	switch r.Pick(40, 8, 14, 16, 22) {
 	case 0:
@@ -580,7 +614,7 @@ func main() {
 		"timeout 0 / far away), store up/down per datacenter (3 primary, 2 dr, one foreign-label store that is always down, one tombstone), region " +
 		"layouts over 9 split points (complete, with gaps, stale state ids, missing integrity) and single-region status reports (current / stale / zero " +
 		"id), scan batch size 1..4 or 1024 through the hook, a failing SaveReplicationStatus (not applied / applied-but-error, 1st or 2nd save of the " +
-		"tick) and a failing FileReplicater, on a mockcluster with a recording FileReplicater; region state ids are only ever ids already published " +
+		"tick), a failing AllocID (1st or 2nd switch attempt) and a failing FileReplicater, on a mockcluster with a recording FileReplicater; region state ids are only ever ids already published " +
 		"(a store cannot report an id PD has not issued); non-trivial = at least two status changes and at least one failed save or refused sync; " +
 		"distinct by sha256 of the canonical case text"
 	cf := &coqfmt.CaseFile{Dir: *out, Prefix: "C19", PerFile: 50,
@@ -629,6 +663,9 @@ func main() {
 			}
 			if o.F.RepFail {
 				R.Count("fault:replicate-file")
+			}
+			if o.F.Alloc {
+				R.Count(fmt.Sprintf("fault:alloc-id:%d", o.F.AIdx))
 			}
 		}
 		R.Count(fmt.Sprintf("batch:%d", c.In.Boot.Batch))
